@@ -54,6 +54,9 @@ P = {
   decided={
     "C05.a": "the walkers documented to follow containment only make every descent control-dependent on attr.cont",
     "C05.b": "get_children: append before/after descent by children_first, visited-by-id, should_follow dominates the descent; parent climb only through .parent; parent assigned after the children loop only when the stack is non-empty",
+    "C05.c": "the single-valued descent of get_children is guarded by a None-test of the child, never by its truth value",
+    "C05.d": "get_parent_of_type climbs to .parent before the type test on every path to the success return (start object excluded), and climbs nothing else",
+    "C05.e": "a class passed as type argument is normalised with the projection the selector compares (__name__ vs __class__.__name__)",
   },
   declined="exactly-once and ordering guarantees over arbitrary object graphs",
   technique="control-dependence (CFG post-dominators) on descent sites + sibling cross-check of the three walkers"),
@@ -70,6 +73,7 @@ P = {
     "C03.c": "(shared with C03) the type-conformance test recurses over inheritors with a cycle guard",
     "C03.d": "(shared with C03) textx_isinstance decision table",
     "C03.h": "(shared with C03) the cycle guard is identity-keyed and skips, never ends, the search",
+    "C07.c": "the PlainName selector consists of existence test, name equality and type conformance only (no truth-value test of the name); found objects are returned by None-test",
   },
   declined="correctness of the search over all models and type hierarchies",
   technique="decision-table extraction with a cardinality domain {0,1,>=2}"),
@@ -109,6 +113,7 @@ P = {
   decided={
     "C12.a": "no constructor field of an RREL node is dropped by its printer; RRELExpression prints its flags for every non-empty flag set",
     "C12.b": "every literal a printer emits is a terminal of the grammar rule that builds that class; navigation form table agrees",
+    "C12.c": "printers and evaluators distinguish 'no fixed name' from an empty fixed name by None-test",
   },
   declined="string-level round-trip equality for all trees",
   technique="field-coverage lint + decision table over the abstract flag domain + printer/grammar literal agreement"),
